@@ -50,6 +50,10 @@ CHECKS = {
    text="partial: every helper (lists.len/reverse/head/tail/enumerate/zip/slice/str_join, tuples.fields/values/iter/strip_nulls/has_fields, strings.len/chars/split_on/split_at/substr/parse_int, functional.maybe, schema.shaped/any/all/base_type_of) is called through import \"std/...\" in built files on seeded random lists, tuples, ASCII and Unicode strings, separators of length 1..3 and boundary index pairs, and the result read from `out yaml` is compared with a python reference definition; involution of reverse, zip truncation, inclusive slices and split_on/str_join round trip are among the cases. Coq theorems about the ASTs of std/*.ucg (regenerated by the real parser, gen/StdLib.v) under the definitional semantics are added for the fold-shaped helpers as they are proved; the level is raised to proof then",
    note="the helpers that use import/mod.pkg (zip, slice, has_fields, the string helpers, schema.*) are outside the definitional semantics (imports answer Unsup) and stay test-only",
    technique="Coq proof for fold-shaped helpers over generated ASTs (in progress) + reference-function correspondence through the ucg binary"),
+ "C16": dict(category="proof",
+   text="partial until the Coq obligations are integrated (then: Coq state machine of one invocation - one Environment with opcode cache, value cache and out locks threaded through the file list - proved to give every file the result of a fresh process, for every project, order and repetition, with a lemma refuting it for the per-invocation out lock of the original code). Tied to the real binary: generated projects of 2..6 files (entries with out statements in five formats, shared libraries, files both built and imported, files failing at parse/type-check/run time before or after their out statement, paths spelled differently, a file named twice) built alone, in every order up to 4 files and random orders beyond, in every 2-file sub-batch, each invocation run twice, and by `ucg build -r .`; per-file status, exit status and every artifact's bytes must equal the stand-alone builds",
+   note="files are abstracted in the model to their imports, number of out statements and whether they fail; diagnostic text is not compared (not part of the property); concurrent modification of files is outside",
+   technique="Coq proof (invariant over the fold of build_file through the shared Environment) + batch/stand-alone correspondence through the ucg binary"),
  "C17": dict(category="proof",
    text="partial: Coq theorems, for every source text, about the positions the tokenizer attaches to tokens - which are the positions every parse error and every opcode carries: they are the true line and column of the token's first byte; a token that starts inside a byte span is reported on a line of that span; text put in front (ending with a line feed) moves every later position by exactly the lines added and leaves the column; text put behind changes no earlier token; and the opcodes of a statement do not depend on the neighbouring statements. That the parser and the evaluator report the position of the failing token / operand of the faulty statement (and list the calling statement for a fault in a function body) is decided against the implementation: generated multi-line programs with one fault of every kind, each in several forms (literal operand, operand bound earlier, operand returned by a function defined earlier), at every statement position and nesting position, each also with 1..3 statements inserted before",
    note="positions are dropped in the VM model (C01), so 'the error carries the failing operand's position' is observed, not proved; a syntax diagnostic may point at the first token after the faulty statement, where the parser notices the fault",
